@@ -14,7 +14,7 @@ META = dict(
 
 def tasks(tier):
     from vf.core import Task
-    return [Task('props.wire:run', name='C17/wire.c17_point_pos.Npos1', fname='c17_point_pos', kwargs=dict(Npos=1), timeout=300), Task('props.wire:run', name='C17/wire.c17_point_pos.Npos2', fname='c17_point_pos', kwargs=dict(Npos=2), timeout=300)] + bounded_tasks('C17', tier)
+    return [Task('props.wire:run', name='C17/wire.c17_point_pos.Npos1', fname='c17_point_pos', kwargs=dict(Npos=1), timeout=300), Task('props.wire:run', name='C17/wire.c17_point_pos.Npos2', fname='c17_point_pos', kwargs=dict(Npos=2), timeout=300), Task('props.wire:run', name='C17/wire.integrate_1d', fname='c17_integrate_1d', timeout=300), Task('props.C17:t_pdf', name='C17/pdfs.biv_lognormal', timeout=600)] + bounded_tasks('C17', tier)
 
 
 MANIFEST_ENTRY = dict(
@@ -24,3 +24,8 @@ MANIFEST_ENTRY = dict(
     text='DFE quadrature identities against mpmath, theta-linearity, mixtures, cache equality across worker counts and split jobs, fault reporting, compiled pdfs.',
     note='bounded: see coverage.bounded.drivers[].bound in the evidence file for the exact domain of every driver',
 )
+
+
+def t_pdf():
+    from contracts import c_verify as V
+    return V.verify_biv_lognormal()
